@@ -12,7 +12,7 @@ CLAIMS = {
  "C11": ("model_checking", "refused submits injected into valid histories and the refusal matrix (every context state x every flags word, message finished afterwards); TLC decides from the spec state which calls must be refused, with which codes, that nothing but the error field changes and that later valid calls are not reported failed", "5 C11", "TLA+ spec (HashAPI) + TLC trace validation"),
  "C02": ("model_checking", "SP 800-38D written as an executable TLA+ definition (AesModes, FIPS 197 in Aes.tla); TLC recomputes ciphertext and tag of every recorded one-shot call over the enumerated call space of all four families x nt x key size x direction", "5 C02", "executable TLA+ definition + TLC trace validation"),
  "C07": ("model_checking", "GCM streaming state machine in TLA+ (position, ciphertext so far); TLC checks every update's output against the key stream at the spec's position and the final tag against the one-shot definition for the carry table, sub-block runs, counter-wrap sweep and random compositions, per family", "5 C07", "TLA+ state machine + TLC trace validation"),
- "C03": ("model_checking", "IEEE 1619 XTS incl. ciphertext stealing as an executable TLA+ definition; TLC recomputes every recorded call (3 families x raw/expanded x enc/dec x 2 key sizes x every tail class; lengths < 16 must leave buffers untouched)", "5 C03", "executable TLA+ definition + TLC trace validation"),
+ "C03": ("model_checking", "IEEE 1619 XTS incl. ciphertext stealing as an executable TLA+ definition; TLC recomputes every recorded call (3 families x raw/expanded x enc/dec x 2 key sizes x every tail class; lengths < 16 must leave buffers untouched; data units up to the legal maximum of 2^24 bytes: first blocks, return code, tail)", "5 C03", "executable TLA+ definition + TLC trace validation"),
  "C04": ("model_checking", "FIPS 197 key expansion and SP 800-38A CBC as executable TLA+ definitions; schedules and CBC outputs of every family compared byte for byte by TLC", "5 C04", "executable TLA+ definition + TLC trace validation"),
 }
 EXTRA = os.path.join(V, "tools", "claims_extra.json")
